@@ -54,6 +54,9 @@ def main():
         prop, rel, old, new, desc = MUTANTS[name]
         shutil.rmtree(MUT, ignore_errors=True)
         subprocess.run(["rsync", "-a", "--exclude", "target", "--exclude", ".git", "/repo/", MUT + "/"], check=True)
+        # cargo's freshness check is mtime based: a file restored by rsync carries its old mtime, so a crate changed by the previous mutant
+        # and not by this one would keep the previous mutant's artefact.  Make every crate root new.
+        subprocess.run("touch " + MUT + "/frost-*/src/lib.rs", shell=True, check=True)
         path = os.path.join(MUT, rel)
         text = open(path, encoding="utf-8").read()
         if text.count(old) < 1:
